@@ -45,6 +45,20 @@
 (*             state>> as Dec2; touched = names of arguments whose contents *)
 (*             changed during a call.  The docstrings list every parameter  *)
 (*             as `float`: this is a deliberate widening, see notes/C20.md. *)
+(*  forms    : one object, one state A (both phases), a second state B,     *)
+(*             then A again.  Each list holds pairs <<variant, reference>>  *)
+(*             of Dec2 results that must agree: types (arguments given as   *)
+(*             int / numpy.float64 / numpy.int64 vs float), posn            *)
+(*             (positional vs keyword call), dflt (argument omitted vs the  *)
+(*             documented default T0 = 298.15 K, P0 = 1 bar, V0 = V0('m3'), *)
+(*             n = 1, gas_phase = True passed explicitly), ctor (object     *)
+(*             rebuilt through from_dict(to_dict()), the JSON encoder, the  *)
+(*             positional constructor vs the original), again (A after B vs *)
+(*             A before B; B on the used object vs B on a fresh object);    *)
+(*             untouched: the object's a, b are what the constructor got;   *)
+(*             std (ideal gas only): get_V() get_P() get_T() get_n() with   *)
+(*             every argument omitted - the standard state must be on       *)
+(*             P V = n R T with P = 1 bar, T = 298.15 K, n = 1 mol.         *)
 (*  raise / nonfinite : a getter raised or returned nan/inf                *)
 (***************************************************************************)
 EXTENDS Dec2, TLC, TLCExt, Json, IOUtils
@@ -129,8 +143,22 @@ ArrClauses(e) ==
               \cup Fails(\A i \in 1..Len(e.pairs) : Close2(e.pairs[i][1], e.pairs[i][2], 13), "ArrayIsMapOfScalar")
          ELSE {})
 
+\* ---- argument forms, constructors, repeated use
+AllSame(ps) == \A i \in 1..Len(ps) : Close2(ps[i][1], ps[i][2], 13)
+StdOK(e) == e.std = <<>> \/
+   (/\ Close(e.std[2], <<1, 0>>, 7) /\ Close(e.std[3], <<29815, -2>>, 7) /\ Close(e.std[4], <<1, 0>>, 7)
+    /\ Close(Mul(e.std[2], e.std[1]), Mul(Mul(e.std[4], RgasBar), e.std[3]), 6))
+FormsClauses(e) ==
+   Fails(AllSame(e.types), "ArgumentTypeIrrelevant")
+   \cup Fails(AllSame(e.posn), "PositionalIsKeyword")
+   \cup Fails(AllSame(e.dflt) /\ StdOK(e), "DefaultIsStandardState")
+   \cup Fails(AllSame(e.ctor), "RebuiltObjectSameAnswers")
+   \cup Fails(AllSame(e.again), "RepeatableCall")
+   \cup Fails(e.untouched, "ObjectUntouched")
+
 Clauses(e) ==
    CASE e.ev = "ideal" -> IdealClauses(e)
+     [] e.ev = "forms" -> FormsClauses(e)
      [] e.ev = "arr" -> ArrClauses(e)
      [] e.ev = "vdw" -> VdwClauses(e)
      [] e.ev = "crit" -> CritClauses(e)
